@@ -58,7 +58,7 @@ def strategy(tier, phase):
         return st.fixed_dictionaries({"tape": rmodel.tape_strategy(), "steps": st.lists(step, min_size=1, max_size=1), "wrap": st.sampled_from([0, 0, 2]),
                                       "gen": st.just(4), "prelude": st.one_of(st.just([]), rmodel.tape_strategy(100), rmodel.tape_strategy(100)), "prelude_edit": edit})
     return st.fixed_dictionaries({"tape": rmodel.tape_strategy(), "steps": st.lists(step, min_size=1, max_size=6), "wrap": st.integers(0, 3),
-                                  "gen": st.sampled_from([2, 3, 4, 4]), "prelude": st.one_of(st.just([]), st.just([]), rmodel.tape_strategy(100)),
+                                  "gen": st.sampled_from([2, 3, 4, 4, 5, 5]), "prelude": st.one_of(st.just([]), st.just([]), rmodel.tape_strategy(100)),
                                   # ... or the prelude is the model under test with a few tape positions changed (the "same" model before an edit)
                                   "prelude_edit": st.one_of(st.just([]), st.just([]), st.lists(st.tuples(st.one_of(st.integers(0, 12), st.integers(0, 12), st.integers(0, 80)), st.integers(0, 2**16)).map(list), min_size=1, max_size=3))})
 
@@ -265,6 +265,24 @@ def execute(case):
         else:
             for name, bs in singles.items():
                 if b in bs:
+                    culprit = name
+                    break
+        if culprit is None:
+            # some effects need two rounds of one and the same pass (the first round makes something unused, the second acts
+            # on that): still that pass's doing
+            for st_ in steps:
+                name = PASSES[st_[0] % len(PASSES)]
+                if name + "*2" in singles:
+                    continue
+                try:
+                    r = _evaluate(dict(case, steps=[st_, st_], wrap=0))
+                    singles[name + "*2"] = {x for x, _ in r.get("failures", [])}
+                    if case.get("wrap", 0) % 4:  # (under the case's own wrapper too: a functional pass works on a clone)
+                        r = _evaluate(dict(case, steps=[st_, st_]))
+                        singles[name + "*2"] |= {x for x, _ in r.get("failures", [])}
+                except Exception:
+                    singles[name + "*2"] = set()
+                if b in singles[name + "*2"]:
                     culprit = name
                     break
         if culprit is None:
